@@ -70,6 +70,7 @@ Detail(pre, e, c) ==
   CASE e.op = "List" /\ c = "C12:list-extra" ->
          ToJson(<<e.kind, e.proj, UNION {ProjOfListed(pre, e.kind, e.names[i]) : i \in DOMAIN e.names} \ {e.proj}>>)
     [] e.op \in {"List", "Get"} -> e.kind
+    [] e.op = "Failed" -> ToJson(<<e.of, e.kind, e.mode>>)
     [] OTHER -> ""
 
 TraceInit == l = 1 /\ S = Empty /\ bad = {}
